@@ -420,7 +420,22 @@ def make_session(k, r, c, rng, nst, tags, clean=False):
             stxt = lit(sk, v)
             ssx = ["sc", sk, ms.payload(sk, v)]
             newvals = None
-        srcs.append("%s %s %s" % (target_text(t), OPTXT[op], stxt))
+        spos = [i for i in range(1, len(t)) if t[i][0] == "s"] if t[0] in ("i1", "i2") else []
+        if spos and rng.random() < 0.12:
+            # the statement is executed as a transition of a one-shot state machine and ONE scalar index component is the
+            # machine's pattern variable `n` (a local environment) which shadows a global `n` of another value: every
+            # index form must evaluate its components with the local bindings.  The model statement is unchanged.
+            i = rng.choice(spos)
+            parts = [ix_text(t[j]) if j != i else "n" for j in range(1, len(t))]
+            nfsm = sum(1 for z in srcs if "#W" in z) + 1
+            wrapped = ("" if any(z.startswith("n := 99") for z in srcs) else "n := 99\n") + (
+                "#W%d(n<f64>) => <f64>\n  ├ :Go(n<f64>)\n  └ :Done(n<f64>).\n\n"
+                "#W%d(n<f64>) -> :Go(n)\n  :Go(n)\n    ├ n > -100 -> x[%s] %s %s -> :Done(0)\n    └ * -> :Done(0)\n  :Done(n) => n.\n\n"
+                "#W%d(%d)") % (nfsm, nfsm, ",".join(parts), OPTXT[op], stxt, nfsm, t[i][1])
+            srcs.append(wrapped)
+            tags["fsm_wrapped"] = tags.get("fsm_wrapped", 0) + 1
+        else:
+            srcs.append("%s %s %s" % (target_text(t), OPTXT[op], stxt))
         stmts.append(["asg", op, target_sx(t), ssx])
         # track the state roughly (only to pick operands)
         if pos is not None and sk == k and all(0 <= p < n for p in pos):
